@@ -21,6 +21,7 @@ inductive Err
   | KeyError
   | ValueError                 -- negative shift count, `max([])`
   | TypeError                  -- `None` used as a value (`None < x`, `None + x`)
+  | IndexError                 -- `xs[i]` outside the list
   | Raised (cls : String)      -- `raise Cls(...)`
   | Unsupported (what : String) -- execution leaves the translated subset (e.g. `int ** negative` is a float)
   deriving DecidableEq, Repr
@@ -92,6 +93,28 @@ def listMax : List Int → M Int
   | x :: y :: l => do
     let m ← listMax (y :: l)
     pure (if x < m then m else x)
+
+/-- insertion of `x` into an ascending list, before the first element that is not smaller -/
+def insertAsc (x : Int) : List Int → List Int
+  | [] => [x]
+  | y :: ys => if x ≤ y then x :: y :: ys else y :: insertAsc x ys
+
+/-- `sorted(xs)` / `xs.sort()` on a list of ints: the ascending rearrangement (ints compare by value, so every correct sorting algorithm returns
+    this list; written as an insertion sort) -/
+def sorted : List Int → List Int
+  | [] => []
+  | x :: xs => insertAsc x (sorted xs)
+
+/-- `xs[i]`: a negative index counts from the end; outside the list it raises `IndexError` -/
+def index {α : Type} (xs : List α) (i : Int) : M α :=
+  let j : Int := if i < 0 then i + (xs.length : Int) else i
+  if j < 0 then .error .IndexError else
+  match xs[j.toNat]? with
+  | some v => .ok v
+  | none => .error .IndexError
+
+/-- `range(a, b)`: the ints `a, a+1, …, b-1` (empty when `b ≤ a`) -/
+def range (a b : Int) : List Int := (List.range (b - a).toNat).map (fun (k : Nat) => a + (k : Int))
 
 /-- `while cond: body` over the loop state `σ` with a fuel bound (structural recursion): when the fuel runs out while the condition still holds
     the result is `Unsupported` — a tie theorem about a translated loop states how much fuel suffices -/
